@@ -1,6 +1,9 @@
 package schema
 
-import "regexp"
+import (
+	"math"
+	"regexp"
+)
 
 // C04 — totality: for every well-formed schema kind and every value shape a decoder (or a Go caller) can hand over,
 // Unserialize / data-mode ValidateCompatibility / Validate / Serialize return (result, error) and never panic or
@@ -29,7 +32,7 @@ type verifStructSelf struct {
 	Next *verifStructSelf `json:"next"`
 }
 
-const verifNData = 40
+const verifNData = 45
 
 // verifData returns a value of shape k; leaves are symbolic where that is meaningful.
 func verifData(tag string, k int, concFloat bool, concInt bool) any {
@@ -138,11 +141,21 @@ func verifData(tag string, k int, concFloat bool, concInt bool) any {
 		return (*regexp.Regexp)(nil)
 	case 39:
 		return verifStructL{A: nondetInt64(tag + "la")}
+	case 40: // a NaN key: present in MapKeys but never found by MapIndex
+		return map[any]any{math.NaN(): int64(1)}
+	case 41:
+		return map[float64]any{math.NaN(): int64(1), 1.5: int64(2)}
+	case 42: // typed nil pointers of the struct types the struct-mapped schemas use
+		return (*verifStructA)(nil)
+	case 43:
+		return (*verifStructSelf)(nil)
+	case 44:
+		return []any{(*verifStructA)(nil), nil}
 	}
 	panic("bad data shape")
 }
 
-const verifNSchemas = 24
+const verifNSchemas = 27
 
 func verifTotalSchema(k int) Type {
 	intP := func(req bool) *PropertySchema {
@@ -210,6 +223,22 @@ func verifTotalSchema(k int) Type {
 			"v":    intP(false),
 			"next": NewPropertySchema(NewRefSchema("Self", nil), nil, false, nil, nil, nil, nil, nil),
 		}))
+	case 24: // object mapped to a pointer-to-struct type
+		return NewStructMappedObjectSchema[*verifStructA]("PA", map[string]*PropertySchema{
+			"a": intP(false),
+			"b": NewPropertySchema(NewStringSchema(nil, nil, nil), nil, false, nil, nil, nil, nil, nil),
+		})
+	case 25: // one-property objects whose chain runs into a cycle that does not contain the first one
+		return NewScopeSchema(
+			NewObjectSchema("Head", map[string]*PropertySchema{"next": NewPropertySchema(NewRefSchema("Loop", nil), nil, false, nil, nil, nil, nil, nil)}),
+			NewObjectSchema("Loop", map[string]*PropertySchema{"next": NewPropertySchema(NewRefSchema("Loop", nil), nil, false, nil, nil, nil, nil, nil)}),
+		)
+	case 26: // ... a cycle of length two behind a head
+		return NewScopeSchema(
+			NewObjectSchema("Head", map[string]*PropertySchema{"next": NewPropertySchema(NewRefSchema("P", nil), nil, false, nil, nil, nil, nil, nil)}),
+			NewObjectSchema("P", map[string]*PropertySchema{"next": NewPropertySchema(NewRefSchema("Q", nil), nil, false, nil, nil, nil, nil, nil)}),
+			NewObjectSchema("Q", map[string]*PropertySchema{"next": NewPropertySchema(NewRefSchema("P", nil), nil, false, nil, nil, nil, nil, nil)}),
+		)
 	}
 	panic("bad schema kind")
 }
